@@ -177,6 +177,9 @@ RuleSpecific(n, es) ==
   [] n = "remove_comments" -> SetValue(es, "except", L(<<"(">>), "invalid-regex") \cup SetValue(es, "except", L(<<"KEEP", "[a">>), "invalid-regex")
   [] n = "remove_interpolated_string" -> SetValue(es, "strategy", S("other"), "invalid-value")
   [] n = "rename_variables" -> SetValue(es, "globals", L(<<"c", "not valid">>), "invalid-value")
+                               \* a `$name` entry is a GROUP: only $default and $roblox exist (everything else is an error, not an ignored entry)
+                               \cup SetValue(es, "globals", L(<<"$lune">>), "invalid-value") \cup SetValue(es, "globals", L(<<"c", "$Roblox">>), "invalid-value")
+                               \cup SetValue(es, "globals", L(<<"$defaults", "$default">>), "invalid-value") \cup SetValue(es, "globals", L(<<"$">>), "invalid-value")
   [] n = "convert_require" -> SetValue(es, "target", S("nope"), "invalid-value") \cup Inner(es, 2, "mode")
                               \cup SetValue(es, "current", O(<<"name", "str", "nope">>), "invalid-value")
   [] OTHER -> {}
